@@ -316,7 +316,15 @@ func authenticateConnection(p2id participant2ID, conn net.Conn, logger Logger) (
 	sig := h.Signature
 	h.Signature = nil
 
-	if !ecdsa.VerifyASN1(pk, sha256Digest(h.Bytes()), sig) {
+	// The signed bytes are the re-encoding of what was received; a received domain in a string type
+	// that accepts arbitrary bytes may not be re-encodable, which must not bring the node down.
+	signedBytes, err := asn1.Marshal(h)
+	if err != nil {
+		logger.Warnf("Handshake received cannot be re-encoded: %v", err)
+		return "", 0, false
+	}
+
+	if !ecdsa.VerifyASN1(pk, sha256Digest(signedBytes), sig) {
 		logger.Warnf("Signature mismatch")
 		return "", 0, false
 	}
